@@ -599,6 +599,8 @@ void ExpressionBuilder::expr_dot(const char* id)
         }
     } else if (type.is(PROCESS_VAR)) {
         symbol_t uid;
+        if (expr.get_kind() != IDENTIFIER)  // e.g. `(sum (p : T) p).v`: there is no symbol to look the template up with
+            throw TypeException("$Process_variable_expected");
         // temporarily set the frame to that of its associated template
         if (dynamicFrames.find(expr.get_symbol().get_name()) == dynamicFrames.end()) {
             throw UnknownIdentifierError(expr.get_symbol().get_name());
@@ -606,6 +608,7 @@ void ExpressionBuilder::expr_dot(const char* id)
         push_frame(dynamicFrames[expr.get_symbol().get_name()]);
 
         if (!resolve(id, uid)) {
+            popFrame();  // do not leave the template's frame on the scope stack (enclosing quantifiers use frames.top())
             expr_false();
             throw UnknownIdentifierError(id);
         }
